@@ -449,6 +449,32 @@ func c11ParserWiring(r *Run) {
 			kinds[strings.TrimPrefix(typeStr(info.Types[e].Type), "*ast.")] = true
 		}
 	}
+	// no default arm, every arm leaves the function: what stands behind the switch is the default
+	hasDefault, allLeave := false, true
+	for _, c := range ts.Body.List {
+		cc := c.(*ast.CaseClause)
+		if cc.List == nil {
+			hasDefault = true
+		}
+		if len(cc.Body) == 0 {
+			allLeave = false
+		} else if _, isRet := cc.Body[len(cc.Body)-1].(*ast.ReturnStmt); !isRet {
+			allLeave = false
+		}
+	}
+	if !hasDefault && allLeave {
+		if blk, isBlk := w.Parent(ts).(*ast.BlockStmt); isBlk {
+			after := false
+			for _, st := range blk.List {
+				if after && stmtsRecordError(pm, st, 0) {
+					defaultErr = true
+				}
+				if st == ast.Stmt(ts) {
+					after = true
+				}
+			}
+		}
+	}
 	if kinds["IndexExpression"] && kinds["CallExpression"] && kinds["Identifier"] && len(kinds) == 3 {
 		r.Ok("R5", f.Name(), "handles index, call and identifier nodes", w.Pos(ts.Pos()), "exactly the three kinds a path can continue with")
 	} else {
